@@ -400,6 +400,13 @@ func c01Audit(c *vlib.Ctx, label string, crash c01Crash, led *c01Ledger, msgs []
 			viol("duplicate_after_restart", fmt.Sprintf("marker %s target %s exists %d times", k.marker, k.target, len(rs)), nil, rs)
 		}
 		for _, row := range rs {
+			// "is offered for delivery again": nothing in this traffic asks for a delay
+			// beyond one second (lease_ttl 1s, nack delay 0s, no scheduled publishes), so a
+			// pull row that is not due within the next hour will not be offered (push targets
+			// are rescheduled by the dispatcher's backoff)
+			if k.target == "pull" && (row.State == "queued" || row.State == "leased") && row.NextRunAt.After(time.Now().Add(time.Hour)) {
+				viol("not_due_for_redelivery", fmt.Sprintf("marker %s (%s) is %s after restart but scheduled for %s: it will not be offered again", k.marker, k.target, row.State, row.NextRunAt.UTC().Format(time.RFC3339)), nil, row)
+			}
 			b, _ := base64.StdEncoding.DecodeString(row.PayloadB64)
 			if sha16(b) != m.SHA {
 				viol("payload_differs_after_restart", fmt.Sprintf("marker %s: payload sha %s != sent %s (%d bytes)", k.marker, sha16(b), m.SHA, len(b)), nil, nil)
@@ -856,7 +863,7 @@ func c01Drain(c *vlib.Ctx, p *l3.Proc, label string, crash c01Crash, led *c01Led
 
 // C01: an acknowledged message is durable.
 func C01(c *vlib.Ctx) {
-	c.Rule("the real binary (verif hooks, WAL checkpoint every 40ms) runs on loopback with SQLite on disk; 4 concurrent clients send a seeded mix of ingress single/fan-out requests, publish batches of 1-20, uploads cut off after 0 / 1 / half / all-but-one of the announced body bytes (half-closed or dropped), dequeues and single/batch ack/nack/dead-letter calls, writing a ledger entry before each request and the status after the reply; the process is killed (SIGKILL from inside at a named point x hit index, or from outside at a seeded operation index), restarted on the same database (3 generations per database in a third of the trials) and audited through the Admin listing: acknowledged and not acked-away => exactly one row per target with the same payload sha256; acknowledged ack/dead-letter not undone; open request => zero or one row per target; nothing nobody sent; no duplicates; restart succeeds; then every deliverable message is offered again through the Pull API. distinct_nontrivial = distinct (crash point x hit class | external op-index decade) classes actually reached.")
+	c.Rule("the real binary (verif hooks, WAL checkpoint every 40ms) runs on loopback with SQLite on disk; 4 concurrent clients send a seeded mix of ingress single/fan-out requests, publish batches of 1-20, uploads cut off after 0 / 1 / half / all-but-one of the announced body bytes (half-closed or dropped), dequeues and single/batch ack/nack/dead-letter calls, writing a ledger entry before each request and the status after the reply; the process is killed (SIGKILL from inside at a named point x hit index, or from outside at a seeded operation index), restarted on the same database (3 generations per database in a third of the trials) and audited through the Admin listing: acknowledged and not acked-away => exactly one row per target with the same payload sha256; acknowledged ack/dead-letter not undone; open request => zero or one row per target; nothing nobody sent; no duplicates; restart succeeds; no pull row scheduled more than an hour ahead (the traffic never asks for more than a second); then every deliverable message is offered again through the Pull API. distinct_nontrivial = distinct (crash point x hit class | external op-index decade) classes actually reached.")
 	c.Assume("process death (SIGKILL), not power loss: the page cache survives; the ordering of fsync before the acknowledgement is checked separately by the strace trace specification in the thorough tier")
 	c.Assume("identity is by marker (ids are server-generated); batch atomicity under a crash is not demanded for an unacknowledged publish")
 	root := filepath.Join(vlib.VerifRoot(), ".run", fmt.Sprintf("c01.%d", os.Getpid()))
